@@ -1,5 +1,96 @@
-import RSVerif.Basic
-/- C20: line-protocol driver (stub) -/
+import RSVerif.Model.Supervisor
+/-
+Line protocol for C20 (cases of go/harness/c20.go).
+
+  topo <hosts> <script>                 -> what the property predicts: the repaired loop run with the SPEC's
+                                           reading of each probe (`Spec.Supervisor.nodeState`, not the regexes
+                                           extracted from the source) — `Properties.C20.getRedisNodeState_eq_spec`
+                                           is what makes this the model of the code.
+  sync <hosts> <script>                 -> the same prediction for the end-to-end run through the real factory and
+                                           DbSyncer.updateSlotTopology; the error is an abort (log.Panicf) there
+  pinned topo <hosts> <script>          -> the same for the loop as pinned (diagnostic, deviation D21)
+  accept <impl|line> topo <hosts> <script> -> `accepted` iff the implementation's answer satisfies the spec
+                                           (`Spec.Supervisor.correct`) in the attempt at which the model returns.
+-/
 namespace RSVerif.Drive.C20
-def handle (_line : String) : String := "unimplemented"
+open RSVerif RSVerif.Supervisor RSVerif.Spec.Supervisor
+
+def parseTok (t : String) : Option Probe :=
+  match t.toList with
+  | [] => some .connErr
+  | ['C'] => some .connErr
+  | ['D'] | ['R'] | ['N'] | ['T'] | ['A'] => some .cmdErr
+  | 'B' :: h | 'S' :: h => (ofHex (String.ofList h)).map .info
+  | _ => none
+
+def parseRow (r : String) : Option (List Probe) := (r.splitOn ",").mapM parseTok
+
+def parseScript (s : String) : Option (List (List Probe)) := (s.splitOn "/").mapM parseRow
+
+/-- attempt `a` plays row `min a (rows-1)`; a position beyond its row refuses the connection -/
+def outOf (rows : List (List Probe)) (a i : Nat) : Probe :=
+  match rows[min a (rows.length - 1)]? with
+  | some row => row[i]?.getD .connErr
+  | none => .connErr
+
+def sortStrings (l : List String) : List String := (l.toArray.qsort (· < ·)).toList
+
+def joinOrDash (l : List String) : String := if l.isEmpty then "-" else ",".intercalate l
+
+structure Case where
+  node : SyncNode
+  out : Nat → Nat → Probe
+
+def parseCase (hs sc : String) : Option Case :=
+  match hs.splitOn ",", parseScript sc with
+  | src :: slaves, some rows => some ⟨⟨src, slaves⟩, outOf rows⟩
+  | _, _ => none
+
+def predict (c : Case) : Run := getSlotStateWith .repaired nodeState c.node c.out
+
+def render (r : Run) : String :=
+  match r.result with
+  | .ok n => s!"ok attempts={r.attempts} src={n.source} slaves={joinOrDash (sortStrings n.slaves)}"
+  | .maxRetriesReached => s!"err attempts={r.attempts}"
+
+def field (key : String) (fs : List String) : Option String :=
+  fs.findSome? fun f => if f.startsWith (key ++ "=") then some ((f.drop (key.length + 1)).toString) else none
+
+def accepts (impl : String) (c : Case) : Bool :=
+  let r := predict c
+  match impl.splitOn "|" with
+  | ["err", a] => r.result == .maxRetriesReached && a == s!"attempts={r.attempts}"
+  | "ok" :: fs =>
+    match r.result, field "attempts" fs, field "src" fs, field "slaves" fs with
+    | .ok _, some a, some src, some sl =>
+      fs.length == 3 && a == toString r.attempts &&
+      correct (hosts c.node) (fun i => answer (c.out (r.attempts - 1) i))
+        ⟨src, if sl == "-" then [] else sl.splitOn ","⟩
+    | _, _, _, _ => false
+  | _ => false
+
+def handle (line : String) : String :=
+  match line.splitOn " " with
+  | ["topo", hs, sc] =>
+    match parseCase hs sc with
+    | some c => render (predict c)
+    | none => "badcase"
+  | ["sync", hs, sc] =>
+    match parseCase hs sc with
+    | some c =>
+      let r := predict c
+      match r.result with
+      | .ok _ => render r
+      | .maxRetriesReached => s!"abort attempts={r.attempts}"
+    | none => "badcase"
+  | ["pinned", "topo", hs, sc] =>   -- diagnostic: the loop as pinned (before fixes/C20-displaced-master.patch)
+    match parseCase hs sc with
+    | some c => render (getSlotStateWith .pinned nodeState c.node c.out)
+    | none => "badcase"
+  | ["accept", impl, "topo", hs, sc] =>
+    match parseCase hs sc with
+    | some c => if accepts impl c then "accepted" else "rejected"
+    | none => "badcase"
+  | _ => "badcase"
+
 end RSVerif.Drive.C20
